@@ -1187,11 +1187,10 @@ def _shape(a):
 
 
 def _check_shapes(ranges, target):
-    """different SIZES are an error (statement); the same number of cells in another shape (1x6 against 6x1): silent"""
+    """different SIZES are an error (statement) - height and width: the same number of cells in another shape (1x6 against 6x1, 3x2 against
+    2x3) cannot be laid over each other either (Excel: #VALUE!); pairing the cells in reading order would be the silent mis-alignment"""
     for rg in ranges:
         if _shape(rg) != _shape(target):
-            if rg.h * rg.w == target.h * target.w:
-                raise NoOpinion('ranges of the same size but different shape')
             raise XlError(None)
 
 
